@@ -250,12 +250,13 @@ def classify(prop, violations):
   open_mech = {}
   for f in load_known_findings():
     if f.get('property') == prop and f.get('status') == 'open':
-      open_mech[f['mechanism']] = f
+      for m in f.get('mechanisms', [f.get('mechanism')]):
+        open_mech[m] = f
   unlisted, known = [], collections.OrderedDict()
   for v in violations:
     f = open_mech.get(v['mechanism'])
     if f is not None:
-      known.setdefault(v['mechanism'], dict(finding=f, count=0))['count'] += 1
+      known.setdefault(f['id'], dict(finding=f, count=0))['count'] += 1
     else:
       unlisted.append(v)
   return unlisted, known
